@@ -95,15 +95,56 @@ var (
 	KeyName = enc.Name{enc.NewStringComponent(8, "k"), enc.NewStringComponent(8, "KEY"), enc.NewStringComponent(8, "1")}
 )
 
-func EccKey() *ecdsa.PrivateKey {
-	if eccKey == nil {
-		k, err := ecdsa.GenerateKey(elliptic.P256(), rand.Reader)
-		if err != nil {
-			panic(err)
-		}
-		eccKey = k
+func EccKey() *ecdsa.PrivateKey { return EccKeyFor("") }
+
+var eccKeys = map[string]*ecdsa.PrivateKey{}
+
+// EccKeyFor: one key per curve and process ("" / "256" = P-256, "224", "384", "521")
+func EccKeyFor(curve string) *ecdsa.PrivateKey {
+	if k, ok := eccKeys[curve]; ok {
+		return k
 	}
-	return eccKey
+	c := elliptic.P256()
+	switch curve {
+	case "224":
+		c = elliptic.P224()
+	case "384":
+		c = elliptic.P384()
+	case "521":
+		c = elliptic.P521()
+	}
+	k, err := ecdsa.GenerateKey(c, rand.Reader)
+	if err != nil {
+		panic(err)
+	}
+	eccKeys[curve] = k
+	return k
+}
+
+// splitTok: "<base>[<curve>][~<hmac key length>][@<key name>]"
+func splitTok(tok string) (base, curve string, hmacKey []byte, keyName enc.Name) {
+	keyName = KeyName
+	if i := strings.IndexByte(tok, '@'); i >= 0 {
+		keyName = common.ParseNameText(tok[i+1:])
+		tok = tok[:i]
+	}
+	hmacKey = HmacKey
+	if i := strings.IndexByte(tok, '~'); i >= 0 {
+		n := common.Atoi(tok[i+1:])
+		hmacKey = make([]byte, n)
+		for j := range hmacKey {
+			hmacKey[j] = byte(j*7 + 3)
+		}
+		tok = tok[:i]
+	}
+	if strings.HasPrefix(tok, "ecc") {
+		for _, c := range []string{"224", "384", "521"} {
+			if strings.HasSuffix(tok, c) {
+				return strings.TrimSuffix(tok, c), c, hmacKey, keyName
+			}
+		}
+	}
+	return tok, "", hmacKey, keyName
 }
 
 func RsaKey() *rsa.PrivateKey {
@@ -130,8 +171,14 @@ func SigBase(tok string) string {
 	if i := strings.IndexByte(tok, '@'); i >= 0 {
 		tok = tok[:i]
 	}
+	if i := strings.IndexByte(tok, '~'); i >= 0 {
+		tok = tok[:i]
+	}
 	return strings.SplitN(tok, ":", 2)[0]
 }
+
+// SignerFor returns the history's signer instance for a token (exported for concurrent shapes).
+func SignerFor(tok string) ndn.Signer { return signerFor(tok) }
 
 func signerFor(tok string) ndn.Signer {
 	if tok == "none" {
@@ -149,12 +196,14 @@ func signerFor(tok string) ndn.Signer {
 //
 //	none sha shaint hmac hmaccert hmacint ecc ecccert eccint rsa rsacert rsaint empty t:<est>:<len>
 func NewSigner(tok string) ndn.Signer {
-	// "<signer>@<name>": the key locator name of the signer (default /k/KEY/1)
-	KeyName := KeyName
-	if i := strings.IndexByte(tok, '@'); i >= 0 {
-		KeyName = common.ParseNameText(tok[i+1:])
-		tok = tok[:i]
+	// "<signer>@<name>": the key locator name of the signer (default /k/KEY/1); "hmac~<n>": an HMAC key
+	// of n bytes; "ecc521" etc.: the ECDSA signer on another curve
+	if strings.HasPrefix(tok, "t:") {
+		p := strings.Split(tok, ":")
+		return testSigner{est: common.Atoi(p[1]), n: common.Atoi(p[2])}
 	}
+	tok, curve, HmacKey, KeyName := splitTok(tok)
+	EccKey := func() *ecdsa.PrivateKey { return EccKeyFor(curve) }
 	switch tok {
 	case "none":
 		return nil
@@ -196,9 +245,11 @@ func Validate(tok string, covered enc.Wire, sig ndn.Signature) (verdict bool, ok
 	case strings.HasPrefix(tok, "sha"):
 		return sec.Sha256Validate(covered, sig), true
 	case strings.HasPrefix(tok, "hmac"):
-		return sec.HmacValidate(covered, sig, HmacKey), true
+		_, _, key, _ := splitTok(tok)
+		return sec.HmacValidate(covered, sig, key), true
 	case strings.HasPrefix(tok, "ecc"):
-		return sec.EcdsaValidate(covered, sig, &EccKey().PublicKey), true
+		_, curve, _, _ := splitTok(tok)
+		return sec.EcdsaValidate(covered, sig, &EccKeyFor(curve).PublicKey), true
 	case strings.HasPrefix(tok, "rsa"):
 		return sec.RsaValidate(covered, sig, &RsaKey().PublicKey), true
 	}
